@@ -345,13 +345,16 @@ DENSITY_CLASSES = {
     'I': ['6.022141-2', '6.022141e-2'], 'I2': ['6.022142-2', '6.022142E-2'],
     # two digits before the decimal point
     'J': ['-11.34', '-11.340', '-11.3400'], 'K': ['-19.3', '-19.30', '-19.300'],
+    # Fortran exponent forms with a positive exponent (the '+' is the exponent marker of the bare form)
+    'M': ['-1.93+1', '-1.93e+1', '-1.93E+1', '-1.93d+1'],
 }
 
 
 def decorate_materials(deck, rng, classes_for=None, spellings='all'):
     """Give every non-filled cell a material (0, 1, 2) and a density spelling."""
-    classes_for = classes_for or {1: [rng.choice(['A', 'A2']), 'B', 'G', 'H', 'H2', 'J'],
-                                  2: ['C', 'E', 'F', 'B', 'I', 'I2', 'K', 'L']}     # B: shared by both materials
+    # B: shared by both materials; K and M are one value in decimal and in exponent form: never for one material
+    classes_for = classes_for or {1: [rng.choice(['A', 'A2']), 'B', 'G', 'H', 'H2', 'J', 'M'],
+                                  2: ['C', 'E', 'F', 'B', 'I', 'I2', 'K', 'L']}
     values = []
     for c in deck['cells']:
         if c['fill'] or (c['lat'] and c['lunivs']):
